@@ -77,9 +77,9 @@ def copy_judge(req, impl, prev):
                 return ('copied entry present', f'entry {bytes.fromhex(k).decode()} was not copied to {bytes.fromhex(dstk).decode()}')
             if m[0][0] != n[0][0] and not (dstk in pre):
                 return ('same kind', f'copied entry {bytes.fromhex(dstk).decode()} has another kind')
+            if n[0] == 'f' and m[0] == 'f' and m[5] != n[5]:
+                return ('same content', f'copied file {bytes.fromhex(dstk).decode()} has other content')
             if dstk not in pre:
-                if n[0] == 'f' and m[5] != n[5]:
-                    return ('same content', f'copied file {bytes.fromhex(dstk).decode()} has other content')
                 if n[0].startswith('l') and m[4] != n[4]:
                     return ('same link target', f'copied link {bytes.fromhex(dstk).decode()} has another target')
                 want = n[1]
